@@ -197,19 +197,36 @@ def evSig : Event → Option String
 
 def bitOf (s : Store) (n : String) : Option Nat := let v := s.rd.val n; if v.k then some (v.v % 2) else none
 
-/-- half a clock period: drive the base clock to `lvl`, settle, fire the blocks whose event signal made the transition -/
-def Sim.half (m : Sim) (lvl : Nat) : Sim :=
-  let before := m.flat.procs.map fun (ev, _) => (evSig ev).bind (bitOf m.st)
-  let m1 := ({ m with st := m.st.setVal m.clk ⟨1, lvl, true⟩ } : Sim).settle
-  let fired := (m.flat.procs.zip before).filter fun ((ev, _), b) =>
+/-- the blocks whose event signal went 0→1 (posedge) / 1→0 (negedge) between the snapshot `before` and store `st` -/
+def firedProcs (f : Flat) (before : List (Option Nat)) (st : Store) : List Stmt :=
+  ((f.procs.zip before).filter fun ((ev, _), b) =>
     match ev with
-    | .pos c => b == some 0 && bitOf m1.st c == some 1
-    | .neg c => b == some 1 && bitOf m1.st c == some 0
-    | .star => false
-  let (st, q) := fired.foldl (fun (acc : Store × List (Tgt × BV)) ((_, p), _) =>
-    let (s', q') := runProc acc.1 p
-    (s', acc.2 ++ q')) (m1.st, [])
-  ({ m1 with st := applyNba st q } : Sim).settle
+    | .pos c => b == some 0 && bitOf st c == some 1
+    | .neg c => b == some 1 && bitOf st c == some 0
+    | .star => false).map fun ((_, p), _) => p
+
+def snapshotEv (f : Flat) (st : Store) : List (Option Nat) := f.procs.map fun (ev, _) => (evSig ev).bind (bitOf st)
+
+/-- run the fired blocks on `st` (each sees the values before any non-blocking update), apply all non-blocking updates, settle;
+    then the updates themselves may have produced edges on DERIVED clocks (a clock wire driven by a register or gate): those blocks
+    fire in a further delta step, and so on (bounded by `fuel`) -/
+def deltaLoop (m : Sim) : Nat → List Stmt → Sim
+  | 0, _ => m
+  | fuel + 1, fired =>
+    if fired.isEmpty then m else
+    let before := snapshotEv m.flat m.st
+    let (st, q) := fired.foldl (fun (acc : Store × List (Tgt × BV)) p =>
+      let (s', q') := runProc acc.1 p
+      (s', acc.2 ++ q')) (m.st, [])
+    let m2 := ({ m with st := applyNba st q } : Sim).settle
+    deltaLoop m2 fuel (firedProcs m.flat before m2.st)
+
+/-- half a clock period: drive the base clock to `lvl`, settle, fire the blocks whose event signal made the transition
+    (and, in further delta steps, the blocks clocked by derived clocks that moved as a consequence) -/
+def Sim.half (m : Sim) (lvl : Nat) : Sim :=
+  let before := snapshotEv m.flat m.st
+  let m1 := ({ m with st := m.st.setVal m.clk ⟨1, lvl, true⟩ } : Sim).settle
+  deltaLoop m1 8 (firedProcs m.flat before m1.st)
 
 def Sim.cycle (m : Sim) : Sim := (m.half 0).half 1
 
